@@ -78,6 +78,8 @@ def alphabet(name, spec):
             ("i", 0, "U'", (0, last) + o1[0]),
             ("i", 0, "H'_offdiag @ U'", (0, 0) + o1[1]),
             ("e", 0, 0, (last, last) + o1[2]),
+            ("p", 0, (0, 0) + o1[1]),
+            ("p", 0, (last, 0) + o1[0]),
         ]
     if name == "twin":  # two computations from the same input objects, interleaved
         base = [
